@@ -15,6 +15,27 @@ fn arg_after(args: &[String], flag: &str) -> Option<String> {
     args.iter().position(|a| a == flag).and_then(|i| args.get(i + 1).cloned())
 }
 
+/// milliseconds since start at which the current request began (0 = idle); a watchdog thread
+/// turns a request that does not return into a `hang` answer and ends the process
+static BUSY_SINCE: std::sync::atomic::AtomicU64 = std::sync::atomic::AtomicU64::new(0);
+static CLOCK: std::sync::OnceLock<std::time::Instant> = std::sync::OnceLock::new();
+
+fn start_watchdog(limit_ms: u64) {
+    let t0 = *CLOCK.get_or_init(std::time::Instant::now);
+    std::thread::spawn(move || loop {
+        std::thread::sleep(std::time::Duration::from_millis(100));
+        let since = BUSY_SINCE.load(std::sync::atomic::Ordering::SeqCst);
+        let now = t0.elapsed().as_millis() as u64 + 1;
+        if since != 0 && now > since + limit_ms {
+            // stdout is locked by the request loop: write the answer with a raw write(2)
+            unsafe {
+                libc::write(1, b"hang\n".as_ptr() as *const libc::c_void, 5);
+            }
+            std::process::exit(3);
+        }
+    });
+}
+
 fn run_lines(mut f: impl FnMut(&[&str]) -> String) {
     let stdin = std::io::stdin();
     let stdout = std::io::stdout();
@@ -32,7 +53,11 @@ fn run_lines(mut f: impl FnMut(&[&str]) -> String) {
             continue;
         }
         let toks: Vec<&str> = line.split(' ').filter(|t| !t.is_empty()).collect();
+        if let Some(t0) = CLOCK.get() {
+            BUSY_SINCE.store(t0.elapsed().as_millis() as u64 + 1, std::sync::atomic::Ordering::SeqCst);
+        }
         let ans = f(&toks);
+        BUSY_SINCE.store(0, std::sync::atomic::Ordering::SeqCst);
         let _ = writeln!(out, "{}", ans);
         let _ = out.flush();
     }
@@ -57,6 +82,7 @@ fn main() {
         "store" => {
             let root = arg_after(&args, "--root").expect("--root");
             std::fs::create_dir_all(&root).unwrap();
+            start_watchdog(arg_after(&args, "--hang-ms").and_then(|s| s.parse().ok()).unwrap_or(30000));
             let mut st = store::Store::new(root.into());
             run_lines(|toks| st.step(toks));
         }
